@@ -15,6 +15,10 @@ res = {}
 for sid in seeds:
     d = os.path.join(V, "seeded", sid)
     patch = os.path.join(d, "patch.diff")
+    if json.load(open(os.path.join(d, "meta.json"))).get("obsolete"):
+        print(sid, "OBSOLETE (skipped)"); continue
+    if os.path.exists(os.path.join(d, "patch_rebased.diff")):
+        patch = os.path.join(d, "patch_rebased.diff")  # the original was written against an older revision
     r = sh("git apply %s" % patch, REPO)
     if r.returncode != 0:
         r = sh("git apply --3way %s" % patch, REPO)
